@@ -464,6 +464,23 @@ func runHLL(c *Ctx) *Violation {
 			return viol("hll-state/"+name+"/union-mismatched-hash-accepted", "Union of a sketch using %T with one using %T returned nil; documented: mismatched hash functions are an error", hashCtor(bits, which), hashCtor(bits, 1-which))
 		}
 		c.Probe("union_mismatched_hash_rejected", 1)
+		// a receiver whose own hash function differs from that of a and b:
+		// "or if the receiver has a hash function that is set and does not
+		// match those of a and b"; a matching receiver is fine and receives
+		// the union over its previous content
+		c.Oracle("union-receiver-hash")
+		rcv, _ := newSketch(bits, prec, hashCtor(bits, 1-which))
+		if err := unionOf(bits, rcv, x, y); err == nil {
+			return viol("hll-state/"+name+"/union-receiver-hash-mismatch-accepted", "Union into a receiver using %T of two sketches using %T returned nil; documented: an error", hashCtor(bits, 1-which), hashCtor(bits, which))
+		}
+		rcv2, _ := newSketch(bits, 4+(prec-4+1)%7, hashCtor(bits, which))
+		rcv2.Write(item(n + 1))
+		if err := unionOf(bits, rcv2, x, y); err != nil {
+			return viol("hll-state/"+name+"/union", "Union into a receiver with the same hash function and another precision failed: %v", err)
+		}
+		if rcv2.Count() != ref.Count() {
+			return viol("hll-state/"+name+"/union", "Union into a used receiver of another precision counts %v, the operands' union %v", rcv2.Count(), ref.Count())
+		}
 		return nil
 	}); v != nil {
 		return v
